@@ -173,6 +173,8 @@ def simp(t):
             return c
         if _is_bool(a, False) and _is_bool(b, True):
             return simp(("not", c))
+        if b[0] == "ite" and b[2] == a and c[0] == "and" and (b[1] in c[1] or (b[1][0] == "and" and all(k in c[1] for k in b[1][1]))):
+            return b                    # (v if A and B else (v if A else z)) is (v if A else z)
         a2, b2 = assume(a, c, True), assume(b, c, False)
         if (a2, b2) != (a, b):
             return simp(("ite", c, a2, b2))
@@ -268,6 +270,8 @@ def simp(t):
             return simp(("ite", c, d[C(True)], d[C(False)]))
         if base[0] == "call" and base[1] == "dict" and len(base[2]) == 1 and not base[3]:
             return simp(("idx", base[2][0], i))            # dict(d)[k] == d[k]
+        if base[0] == "call" and base[1] == "vars" and len(base[2]) == 1 and not base[3] and is_const(i) and isinstance(i[1], str) and i[1].isidentifier():
+            return simp(("attr", base[2][0], i[1]))        # vars(ns)["x"] == ns.x for a plain namespace object
         if base[0] == "call" and base[1] in ("tuple", "list") and len(base[2]) == 1 and not base[3] and is_const(i) and isinstance(i[1], int) \
                 and base[2][0][0] in ("slice", "mcall", "call", "v", "res", "tup", "list"):
             return simp(("idx", base[2][0], i))            # tuple(s)[k] == s[k]
@@ -382,6 +386,8 @@ def simp(t):
         if len(items) == len(t[1][1]):
             return ("dict", tuple(items) + ((t[2], t[3]),))
         return ("dict", tuple((k, (t[3] if k == t[2] else v)) for k, v in t[1][1]))
+    if h == "call" and t[1] == "dict" and len(t[2]) == 1 and not t[3] and t[2][0][0] == "dict":
+        return t[2][0]                                  # dict(D): a copy, the same value
     if h == "call" and t[1] == "dict" and len(t[2]) == 1 and not t[3] and t[2][0][0] == "call" and t[2][0][1] == "zip" and len(t[2][0][2]) == 2:
         d = _dict_of_zip(t[2][0])
         if d is not None:
@@ -667,14 +673,16 @@ class SymX:
                         st.env[n] = simp(("cat", st.env[n], ("list", (arg,))))
                     return st
                 if isinstance(c.func, ast.Attribute) and isinstance(c.func.value, ast.Name) and c.func.value.id in st.env and c.func.attr == "update" \
-                        and len(c.args) == 1 and not c.keywords and st.env[c.func.value.id][0] == "dict":
-                    arg = ev(c.args[0])
+                        and len(c.args) <= 1 and all(k.arg for k in c.keywords) and (c.args or c.keywords) and self._dict_valued(st.env[c.func.value.id]):
+                    arg = ev(c.args[0]) if c.args else ("dict", ())
                     if arg[0] == "call" and arg[1] == "zip" and len(arg[2]) == 2:
                         arg = _dict_of_zip(arg) or arg
                     if arg[0] == "dict" and all(is_const(k) for k, _ in arg[1]):
                         d = st.env[c.func.value.id]
                         for k, v in arg[1]:
                             d = simp(("setitem", d, k, v))
+                        for k in c.keywords:
+                            d = simp(("setitem", d, C(k.arg), ev(k.value)))
                         st.env[c.func.value.id] = d
                         return st
                 t = ev(s.value)
@@ -699,7 +707,18 @@ class SymX:
             return st
         if isinstance(s, ast.If):
             c = self.truth(ev(s.test))
-            s1 = self.block(s.body, st.copy(), f, depth)
+            walrus = [n.target.id for n in ast.walk(s.test) if isinstance(n, ast.NamedExpr) and isinstance(n.target, ast.Name)]
+            st_then = st.copy()
+            if walrus and c[0] == "and":
+                # inside the body every operand of the conjunction held: a name bound in a later operand is bound
+                for b in walrus:
+                    v = st_then.env.get(b)
+                    for conj in c[1]:
+                        if v is not None and v[0] == "ite" and (v[1] == conj or (v[1][0] == "and" and all(k in c[1] for k in v[1][1]))):
+                            v = v[2]
+                    if v is not None:
+                        st_then.env[b] = v
+            s1 = self.block(s.body, st_then, f, depth)
             s2 = self.block(s.orelse, st.copy(), f, depth)
             return self.merge(c, s1, s2)
         if isinstance(s, ast.Return):
@@ -851,6 +870,18 @@ class SymX:
         if isinstance(t, ast.Name):
             st.env[t.id] = v
         elif isinstance(t, (ast.Tuple, ast.List)):
+            stars = [i for i, e in enumerate(t.elts) if isinstance(e, ast.Starred)]
+            if len(stars) == 1:
+                # `a, *mid, z = v`: a = v[0], z = v[-1], mid = list(v[1:-1])
+                k = stars[0]
+                m = len(t.elts) - k - 1
+                for i, e in enumerate(t.elts[:k]):
+                    self.assign(e, simp(("idx", v, C(i))), st, f, depth)
+                for j, e in enumerate(t.elts[k + 1:]):
+                    self.assign(e, simp(("idx", v, C(j - m))), st, f, depth)
+                mid = simp(("slice", v, C(k) if k else C(None), C(-m) if m else C(None), C(None)))
+                self.assign(t.elts[k].value, mid if mid[0] == "list" else ("call", "list", (mid,), ()), st, f, depth)
+                return
             for i, e in enumerate(t.elts):
                 if isinstance(e, ast.Starred):
                     raise Unsupported("starred assignment")
@@ -1224,6 +1255,42 @@ class SymX:
             return ("floordiv", a, b)
         return ("binop", type(op).__name__, a, b)
 
+    def _sentinel_identity(self, l_ast, r_ast, left, right, st, f):
+        """`x is S` for a module-level sentinel S (one object with identity, bound once at module level, reached only through
+        its name): true exactly on the paths where x was taken from S. None when that is not what is written."""
+        for name, other in ((l_ast, right), (r_ast, left)):
+            if not (isinstance(name, ast.Name) and name.id not in st.env and name.id in f.mod.consts):
+                continue
+            v = left if name is l_ast else right
+            if v[0] not in ("tup", "list", "dict") or self._module_object_modified(f.mod, name.id):
+                continue
+            # the value must not be obtainable in this function except through the name
+            n_el = len(v[1])
+            for n in ast.walk(f.node):
+                if isinstance(n, (ast.Tuple, ast.List, ast.Dict)) and isinstance(getattr(n, "ctx", ast.Load()), ast.Load) \
+                        and len(getattr(n, "elts", getattr(n, "keys", ()))) == n_el:
+                    return None
+
+            def leaf(x, d=0):
+                if x[0] == "ite" and d < 12:
+                    a, b = leaf(x[2], d + 1), leaf(x[3], d + 1)
+                    if a is None or b is None:
+                        return None
+                    return mk_ite(x[1], a, b)
+                if x == v:
+                    return C(True)
+                if is_const(x) or x[0] in ("call", "res", "tup", "list", "dict", "mcall"):
+                    return C(False)
+                return None
+            return leaf(other)
+        return None
+
+    @staticmethod
+    def _dict_valued(t, d=0):
+        if t[0] == "dict":
+            return True
+        return t[0] == "ite" and d < 8 and SymX._dict_valued(t[2], d + 1) and SymX._dict_valued(t[3], d + 1)
+
     def _resolves(self, call, f):
         return bool(self.ctx.cg.resolve(call, f))
 
@@ -1268,6 +1335,10 @@ class SymX:
                 vals = [(C(k_), _lit2(x)) for k_, x in v.items()]
                 if all(x is not None for _, x in vals):
                     return ("dict", tuple(vals))
+            if e.id in f.mod.consts and isinstance(f.mod.consts[e.id], ast.Call) and call_name(f.mod.consts[e.id]) in (
+                    "attrgetter", "operator.attrgetter", "itemgetter", "operator.itemgetter") and not self._module_object_modified(f.mod, e.id) \
+                    and all(self.prog.try_const(a_, f.mod)[0] for a_ in f.mod.consts[e.id].args) and not f.mod.consts[e.id].keywords:
+                return self.expr(f.mod.consts[e.id], State(), f, depth)         # a module-level accessor: GET = operator.attrgetter("a", "b")
             return ("v", e.id)
         if isinstance(e, ast.Attribute):
             p = attr_path(e)
@@ -1333,7 +1404,17 @@ class SymX:
                 return negate(v)
             return v
         if isinstance(e, ast.BoolOp):
-            vals = [ev(x) for x in e.values]
+            vals = []
+            for i_, x in enumerate(e.values):
+                bound = [n.target.id for n in ast.walk(x) if isinstance(n, ast.NamedExpr) and isinstance(n.target, ast.Name)] if i_ else []
+                before = {b: st.env.get(b, UNBOUND) for b in bound}
+                vals.append(ev(x))
+                if bound:
+                    # a binding in a later operand happens only when the earlier operands let the evaluation get there
+                    reach = [self.truth(v) for v in vals[:-1]]
+                    reach = mk_and(*reach) if isinstance(e.op, ast.And) else mk_and(*[mk_not(r) for r in reach])
+                    for b in bound:
+                        st.env[b] = mk_ite(reach, st.env[b], before[b])
             tv = [self.truth(v) for v in vals]
             # value-level `a or b` used as fallback keeps a distinct head so rules can see it
             if any(t[0] == "truthy" for t in tv):
@@ -1348,11 +1429,21 @@ class SymX:
                      ast.In: "in", ast.NotIn: "notin", ast.Is: "is", ast.IsNot: "isnot"}[type(op)]
                 if o in ("is", "isnot") and C(None) in (left, right):
                     left, right = self._list_valued(left), self._list_valued(right)
-                parts.append(simp(("cmp", o, left, right)))
+                ident = None
+                if o in ("is", "isnot"):
+                    l_ast = e.left if r is e.comparators[0] else e.comparators[e.comparators.index(r) - 1]
+                    ident = self._sentinel_identity(l_ast, r, left, right, st, f)
+                    if ident is not None and o == "isnot":
+                        ident = mk_not(ident)
+                parts.append(ident if ident is not None else simp(("cmp", o, left, right)))
                 left = right
             return mk_and(*parts)
         if isinstance(e, ast.IfExp):
             return mk_ite(self.truth(ev(e.test)), ev(e.body), ev(e.orelse))
+        if isinstance(e, ast.NamedExpr) and isinstance(e.target, ast.Name) and not getattr(self, "_in_compr", 0):
+            v = ev(e.value)                     # `(x := value)`: binds x and is the value
+            st.env[e.target.id] = v
+            return v
         if isinstance(e, (ast.ListComp, ast.GeneratorExp, ast.SetComp, ast.DictComp)):
             return self.comprehension(e, st, f, depth)
         if isinstance(e, ast.JoinedStr):
@@ -1434,6 +1525,14 @@ class SymX:
                     out = simp(("strcat", out, C("/")))
                 out = simp(("strcat", out, a))
             return out
+        if isinstance(c.func, ast.Name) and c.func.id not in st.env and c.func.id in f.mod.consts and isinstance(f.mod.consts[c.func.id], ast.Call) and len(args) == 1 and not kws:
+            acc_ = self.expr(c.func, st, f, depth)           # GET = operator.attrgetter("a", "b") at module level; GET(obj)
+            if acc_[0] == "call" and acc_[1] in ("attrgetter", "operator.attrgetter") and all(is_const(x) and isinstance(x[1], str) and "." not in x[1] for x in acc_[2]):
+                vals_ = tuple(st.heap[(args[0], x[1])] if (args[0], x[1]) in st.heap else ("attr", args[0], x[1]) for x in acc_[2])
+                return vals_[0] if len(vals_) == 1 else ("tup", vals_)
+            if acc_[0] == "call" and acc_[1] in ("itemgetter", "operator.itemgetter") and acc_[2]:
+                vals_ = tuple(simp(("idx", args[0], x)) for x in acc_[2])
+                return vals_[0] if len(vals_) == 1 else ("tup", vals_)
         if name == "next" and 1 <= len(args) <= 2 and not kws and args[0][0] == "compr" and args[0][1] in self.loops:
             # next(<generator over a short literal table> [, default]): the first entry that passes the filter, written as a chain
             # of choices (`next((cls for kind, cls in TABLE if kind == player), None)`)
@@ -1467,6 +1566,12 @@ class SymX:
                 return self.inline_closure(fv[1], args, kws, st, depth)
             if fv[0] == "v" and fv[1] in f.mod.funcs and depth < self.inline_depth and fv[1] not in self.no_inline:
                 return self.inline(f.mod.funcs[fv[1]], args, kws, st, depth)
+            if fv[0] == "call" and fv[1] in ("attrgetter", "operator.attrgetter") and len(fv[2]) > 1 and len(args) == 1 and not kws \
+                    and all(is_const(x) and isinstance(x[1], str) and "." not in x[1] for x in fv[2]):
+                # attrgetter("a", "b")(obj) is (obj.a, obj.b)
+                return ("tup", tuple(st.heap[(args[0], x[1])] if (args[0], x[1]) in st.heap else ("attr", args[0], x[1]) for x in fv[2]))
+            if fv[0] == "call" and fv[1] in ("itemgetter", "operator.itemgetter") and len(fv[2]) > 1 and len(args) == 1 and not kws:
+                return ("tup", tuple(simp(("idx", args[0], x)) for x in fv[2]))
             if fv[0] == "call" and fv[1] in ("attrgetter", "operator.attrgetter") and len(fv[2]) == 1 and is_const(fv[2][0]) and isinstance(fv[2][0][1], str) \
                     and "." not in fv[2][0][1] and len(args) == 1 and not kws:
                 k_ = (args[0], fv[2][0][1])
@@ -1555,6 +1660,21 @@ class SymX:
 
     def _map_as_comprehension(self, c, name, st, f, depth):
         """map(fn, xs) == (fn(x) for x in xs); filter(fn, xs) == (x for x in xs if fn(x)) - evaluated as that generator."""
+        a0 = c.args[0]
+        if isinstance(a0, ast.Name) and a0.id in ("max", "min", "len", "abs", "str", "int", "float", "sum", "sorted", "round", "bool", "tuple", "list", "set") \
+                and a0.id not in st.env and a0.id not in f.mod.funcs and a0.id not in f.mod.consts and len(c.args) == 2:
+            # a builtin applied to every element: map(max, rows) == (max(row) for row in rows)
+            x = "$mx%d" % next(self._ids)
+            call = ast.Call(func=ast.Name(id=a0.id, ctx=ast.Load()), args=[ast.Name(id=x, ctx=ast.Load())], keywords=[])
+            gen = ast.comprehension(target=ast.Name(id=x, ctx=ast.Store()), iter=c.args[1], ifs=[call] if name == "filter" else [], is_async=0)
+            ge = ast.GeneratorExp(elt=call if name == "map" else ast.Name(id=x, ctx=ast.Load()), generators=[gen])
+            for node in ast.walk(ge):
+                if node is not c.args[1] and not hasattr(node, "lineno"):
+                    ast.copy_location(node, c)
+            ast.copy_location(ge, c)
+            ge.parent = c
+            gen.parent = ge
+            return self.expr(ge, st, f, depth)
         fv = self.expr(c.args[0], st, f, depth)
         known = fv[0] == "closure" or (fv[0] == "v" and fv[1] in f.mod.funcs) or \
             (fv[0] == "call" and fv[1] in ("attrgetter", "operator.attrgetter", "itemgetter", "operator.itemgetter", "methodcaller", "operator.methodcaller"))
@@ -1882,7 +2002,16 @@ def _split_compound_guards(u, loop):
 
 def classify(loop):
     """{var: Fold} for a for-loop; loop.filter is set to the accumulator-free guard of the whole body."""
-    F, ups = strip_filter(loop, dict(loop.update))
+    ups0 = dict(loop.update)
+    for v0, u0 in list(ups0.items()):
+        # `if wanted(e) and key(e) < best: best = key(e)`: the element filter and the improvement test in one condition
+        acc0 = ("acc", loop.id, v0)
+        if u0[0] == "ite" and u0[3] == acc0 and u0[1][0] == "and":
+            free = [a for a in u0[1][1] if not mentions_acc(a, loop.id)]
+            tied = [a for a in u0[1][1] if mentions_acc(a, loop.id)]
+            if free and tied:
+                ups0[v0] = ("ite", mk_and(*free), ("ite", mk_and(*tied), u0[2], acc0), acc0)
+    F, ups = strip_filter(loop, ups0)
     loop.filter = F
     import os as _os
     if not _os.environ.get("SA_NOSPLIT"):
